@@ -7,6 +7,9 @@ ENGINES = {
 POSTGRES = "PostgresStore cannot be executed in this sandbox (no server, none installable): decided for memory and SQLite only"
 SAMPLED = "absence is not established: the result means no counterexample among the generated cases of the stated shape"
 
+INTERLEAVE = ' || interleaving tier (the harness owns the schedule): a generated prologue leaves leases live, expired, superseded or settled; then two generated operations A and B run on two handles (two SQLiteStore values on one file, or one MemoryStore); A is held at its n-th yield point (n generated: a read of the injected clock or one of ten verif hook points inside the store - after BEGIN IMMEDIATE, around the lease UPDATE, around COMMIT, between batch rows) while B runs to completion or is seen waiting for A, then A is released; oracle: the two answers, the contents afterwards and the answers of a fixed epilogue (stats, dequeue everything, list) equal those of one sequential order of the documented atomic steps of the two operations (a by-filter mutation is select-then-id-list-mutation, everything else one step), each reference order executed on a fresh store under the transition validator; non-trivial = A was held, B completed while A was held, and the sequential orders differ among themselves'
+PREEMPT = "interleaving tier: one preemption per pair (A interrupted once, by all of B), at clock reads and the instrumented points only; interleavings that need B to be interrupted as well, or a switch between two uninstrumented statements, are left to the stress tiers"
+
 PROPS = {
     "C01": {
         "rule": "store tier: a child process runs a generated script (enqueue, batch enqueue, dequeue, ack/nack/dead single and batch, cancel/requeue/delete, "
@@ -31,16 +34,18 @@ PROPS = {
     },
     "C03": {
         "rule": "sequential tier: op sequences biased to dequeue/expiry edges under the transition validator (dequeue may only return due queued or "
-                "expired-leased messages, fresh lease id, attempt+1); non-trivial = some message granted >=2 times or a dequeue after expiry",
-        "assumptions": [POSTGRES, SAMPLED],
-        "parts": [{"engine": "qmodel", "test": "TestProp_C03_Sequential", "quick": 3000, "thorough": 400000}],
+                "expired-leased messages, fresh lease id, attempt+1); non-trivial = some message granted >=2 times or a dequeue after expiry" + INTERLEAVE,
+        "assumptions": [POSTGRES, SAMPLED, PREEMPT],
+        "parts": [{"engine": "qmodel", "test": "TestProp_C03_Sequential", "quick": 3000, "thorough": 400000},
+                  {"engine": "qmodel", "test": "TestProp_C03_Interleaved", "quick": 4000, "thorough": 60000, "shards": {"quick": 8}, "shrinktime": "10s"}],
     },
     "C04": {
         "rule": "op sequences in which every lease id ever granted is kept in a wallet and presented again later (after ack/nack/expiry/cancel/requeue, "
                 "padded/blank/unknown ids, duplicates in a batch); non-trivial = a stale id was presented while its message was leased under a newer id, "
-                "or inside a batch together with >=1 valid id",
-        "assumptions": [POSTGRES, SAMPLED],
-        "parts": [{"engine": "qmodel", "test": "TestProp_C04_Store", "quick": 3000, "thorough": 400000}],
+                "or inside a batch together with >=1 valid id" + INTERLEAVE,
+        "assumptions": [POSTGRES, SAMPLED, PREEMPT],
+        "parts": [{"engine": "qmodel", "test": "TestProp_C04_Store", "quick": 3000, "thorough": 400000},
+                  {"engine": "qmodel", "test": "TestProp_C04_Interleaved", "quick": 4000, "thorough": 60000, "shards": {"quick": 8}, "shrinktime": "10s"}],
     },
     "C05": {
         "rule": "op sequences biased to readiness (nack delays, future next_run_at, expiry, batch sizes around the ready count, route/target filters); "
@@ -56,9 +61,10 @@ PROPS = {
     "C12": {
         "rule": "store tier: queues pre-filled to max_depth(-1), single and batch enqueues (duplicates, batches larger than the remaining capacity, "
                 "memory pressure) interleaved with dequeues/acks under both drop policies; non-trivial = a refusal or eviction while >=1 message was "
-                "leased, or a batch that straddles the capacity boundary",
-        "assumptions": [POSTGRES, SAMPLED],
-        "parts": [{"engine": "qmodel", "test": "TestProp_C12_Store", "quick": 3000, "thorough": 400000}],
+                "leased, or a batch that straddles the capacity boundary" + INTERLEAVE + " (here: queues full or 1-2 below max_depth, pairs with at least one single or batch enqueue under reject and drop_oldest)",
+        "assumptions": [POSTGRES, SAMPLED, PREEMPT],
+        "parts": [{"engine": "qmodel", "test": "TestProp_C12_Store", "quick": 3000, "thorough": 400000},
+                  {"engine": "qmodel", "test": "TestProp_C12_Interleaved", "quick": 4000, "thorough": 60000, "shards": {"quick": 8}, "shrinktime": "10s"}],
     },
     "C13": {
         "rule": "one generated case drives a MemoryStore and a SQLiteStore in lock-step on one fake clock; every result (error class, counts, conflict "
@@ -82,10 +88,11 @@ PROPS = {
         "rule": "big-list tier: 600-1100 messages, id lists of 255-1001 ids and by-filter limits of 1000 (where implementations work in chunks), judged by the same selector || "
                 "store tier: populations over routes x targets x all five states with tie timestamps, then id-list and by-filter mutations "
                 "(unknown/duplicate/padded ids, contradictory filters, limits -1..1001, before-cursors on ties, preview); independent selector; "
-                "non-trivial = the selection is a strict non-empty subset and an otherwise matching message is in a state the op must not touch",
-        "assumptions": [POSTGRES, SAMPLED],
+                "non-trivial = the selection is a strict non-empty subset and an otherwise matching message is in a state the op must not touch" + INTERLEAVE,
+        "assumptions": [POSTGRES, SAMPLED, PREEMPT],
         "parts": [{"engine": "qmodel", "test": "TestProp_C14_Store", "quick": 3000, "thorough": 400000},
-                  {"engine": "qmodel", "test": "TestProp_C14_BigLists", "quick": 48, "thorough": 2400, "shards": {"quick": 8}, "shrinktime": "8s"}],
+                  {"engine": "qmodel", "test": "TestProp_C14_BigLists", "quick": 48, "thorough": 2400, "shards": {"quick": 8}, "shrinktime": "8s"},
+                  {"engine": "qmodel", "test": "TestProp_C14_Interleaved", "quick": 4000, "thorough": 60000, "shards": {"quick": 8}, "shrinktime": "10s"}],
     },
 }
 
